@@ -183,14 +183,14 @@ def _f_exec(*blocks, block_info=None):
     return np.zeros((), dtype="int64")
 
 
-def executed_oracle(da, call):
+def executed_oracle(da, call, pre_op=False):
     """the property, end to end and independent of the model: run every task of the real graph; the block an array argument
     receives must be exactly source[array-location] of the block_info entry describing it (also along dropped axes, which
     arrive concatenated), and block_info[None]['chunk-location'] must enumerate the advertised grid once"""
     import dask.local
     from dask.core import flatten
     args = call[0]
-    y, e, info_dep, _ = real_map_blocks(da, call, _f_exec)
+    y, e, info_dep, _ = real_map_blocks(da, call, _f_exec, pre_op=pre_op)
     if info_dep is None or int(np.prod(y.numblocks)) > 48:
         return None
     srcs = []
@@ -325,8 +325,9 @@ def gen_mb_call(rng, malformed=False):
     return args, drop, new_axis, chunks
 
 
-def real_map_blocks(da, call, fn):
-    """run the REAL da.map_blocks and read the payloads out of the expression"""
+def real_map_blocks(da, call, fn, pre_op=False):
+    """run the REAL da.map_blocks and read the payloads out of the expression (pre_op: every array argument is an elementwise
+    expression `src * 1`, so that the optimizer fuses it with the map_blocks task)"""
     from dask.layers import ArrayBlockIdDep, ArrayValuesDep
     import toolz
     args, drop, new_axis, chunks = call
@@ -337,6 +338,8 @@ def real_map_blocks(da, call, fn):
         else:
             shape = tuple(sum(c) for c in a)
             real_args.append(da.from_array(np.arange(int(np.prod(shape)), dtype="int64").reshape(shape) + k, chunks=a))
+            if pre_op:
+                real_args[-1] = real_args[-1] * 1
     kw = {}
     if drop:
         kw["drop_axis"] = drop if len(drop) > 1 else drop[0]
@@ -407,7 +410,11 @@ def fam_payload(chk, da, rng):
               # inputs of different ndim with a dropped axis (which input axes arrive concatenated?)
               ([((2, 4), (3, 1)), ((3, 1),)], [0], None, None), ([((3, 1),), ((2, 4), (3, 1))], [0], None, None),
               ([((2, 2), (3, 1), (2,)), ((3, 1), (2,))], [0], None, None), ([((2, 2), (3, 1), (2,)), ((2,),)], [1], None, None),
-              ([((2, 2), (3, 1)), ((3, 1),), None], [0], [0], None)]
+              ([((2, 2), (3, 1)), ((3, 1),), None], [0], [0], None),
+              # same shape, same number of blocks, different boundaries (the inputs must NOT be re-aligned behind block_info's back)
+              ([((3, 7),), ((6, 4),)], [], None, None), ([((2, 2), (3, 3)), ((1, 3), (2, 4))], [], None, None), ([((3, 7),), ((6, 4),), ((5, 5),)], [], None, None),
+              # a new axis that the explicit chunks give several blocks
+              ([((2, 2),)], [], [0], ((1, 1, 1), (2, 2))), ([((2, 2), (3,))], [], [1], ((2, 2), (1, 1), (3,))), ([((2, 2),)], [], [1], ((2, 2), (2, 1)))]
     for k in range(n):
         calls.append(gen_mb_call(rng, malformed=(k % 5 == 4)))
     cases, idcases, depcases, kept = [], [], [], []
@@ -433,6 +440,11 @@ def fam_payload(chk, da, rng):
             exp = "None"
             chk.case(("mbinfo", repr(call)), nontrivial=False)
         else:
+            try:
+                _adv = tuple(y.chunks)
+            except Exception as ex:  # noqa: BLE001
+                chk.tie_break("correspondence:the collection built by map_blocks cannot report its chunks", {"call": repr(call), "error": f"{type(ex).__name__}: {ex}"[:200]})
+                continue
             if info_dep is None or tuple(info_dep.chunks) != tuple(y.chunks):
                 chk.tie_break("correspondence:ArrayValuesDep missing or built for other chunks than the call advertises",
                               {"call": repr(call), "advertised": y.chunks, "dep": getattr(info_dep, "chunks", None)})
@@ -465,6 +477,15 @@ def fam_payload(chk, da, rng):
                 except Exception as ex:  # noqa: BLE001
                     xprobs = None
                     chk.count("payload:executed-oracle-raises:" + type(ex).__name__)
+                if xprobs is not None and not xprobs:
+                    try:
+                        with warnings.catch_warnings():
+                            warnings.simplefilter("ignore")
+                            xprobs = [p_ + " [array arguments are elementwise expressions: the call is fused with them]"
+                                      for p_ in (executed_oracle(da, call, pre_op=True) or [])]
+                        chk.count("payload:executed-oracle:fused")
+                    except Exception as ex:  # noqa: BLE001
+                        chk.count("payload:executed-oracle-fused-raises:" + type(ex).__name__)
                 if xprobs is not None:
                     chk.count("payload:executed-oracle")
                     if xprobs:
